@@ -228,6 +228,10 @@ def run(tier='quick'):
                         'result presence / rows_modified() is tested and the empty case throws', floor=5)
     B6 = chk.rule('B6', 'an accessor is refused (throws unsupported_operation) for exactly the 2.x versions '
                         'whose DDL lacks its column', floor=90)
+    chk.rule('B12', 'a row field that the statement of a schema range does not store (its column does not exist there) is '
+                    'not dropped silently: add() / update() throw when the field is engaged, as the per-column accessors '
+                    'of the same column do (columns the database maintains - the id, the last-edit time - excepted)',
+             floor=6)
     B7 = chk.rule('B7', 'an existence lookup that guards an INSERT in an add function compares a complete '
                         'unique key of the table (as declared in the DDL of every admitted version), bound from '
                         'the row fields the INSERT stores in those columns: a lookup on fewer columns can match '
@@ -260,11 +264,17 @@ def run(tier='quick'):
         _c01.range_copy_agreement(chk, B2, maps)
         col_of_field[cls] = cf
         resolve(chk, B3, maps, order, cats, lo2, hi2)
+        _unstored_fields_rejected(prog, chk, fm, cls, record, order, lo2, hi2, cf, cats, table)
 
     _accessors(prog, cg, chk, B4, B6, col_of_field.get('track_table', {}), order, cats, lo2, hi2)
     _row_existence(prog, cg, eff, chk, B5)
     _lookup_keys(prog, cg, eff, chk, B7, order, cats, lo2, hi2)
     chk.extra['statements'] = len(all_maps)
+    B11 = chk.rule('B11', 'an operation that returns or removes "the" row named by its arguments names it completely: the '
+                          'WHERE clause of its SELECT / DELETE covers the primary key or a whole UNIQUE constraint of the '
+                          'table, so that it cannot match several rows (of which get() would return one and remove() '
+                          'delete all)', floor=8)
+    _single_row_keys(prog, cg, eff, chk, B11, order, cats, lo2, hi2)
     B10 = chk.rule('B10', 'every per-column getter returns and every setter takes the type of the row field it '
                           'corresponds to', floor=50)
     accessor_types(prog, chk, B10)
@@ -411,6 +421,119 @@ def _row_existence(prog, cg, eff, chk, B5):
                               '%s issues %s without testing rows_modified() / the result: naming a row '
                               'that does not exist succeeds silently' % (
                                   inst, ', '.join(s.stored_in.kind.upper() for s in writes) or 'a SELECT'))
+
+
+DB_MAINTAINED = {'id', 'last_edit_time'}
+
+
+def _unstored_fields_rejected(prog, chk, fmaps, cls, record, order, lo_all, hi_all, col_of_field, cats, table):
+    rec = prog.records.get(record) or prog.records.get('djinterop::engine::v2::' + record.split('::')[-1])
+    if rec is None:
+        raise AnalysisBroken('B12: record %s not found' % record)
+    allf = [x.get('name') for x in rec.fields]
+    for sm, m in fmaps:
+        if sm.func.name not in ('add', 'update') or sm.stmt.kind not in ('insert', 'update'):
+            continue
+        written = set()
+        for fs in m.values():
+            written |= set(fs)
+        if len(written) < max(3, len(allf) // 2):
+            continue            # a partial statement (splice of the chain), not the row statement
+        lo, hi = rowmap.schema_guard(sm.func, sm.site.node, order)
+        lo, hi = max(lo, lo_all), min(hi, hi_all)
+        if lo > hi:
+            continue
+        rng = '%s..%s' % (order[lo], order[hi])
+        unstored = []
+        col_by_field = {v: k for k, v in col_of_field.items()}
+        for x in allf:
+            if x in written or x in DB_MAINTAINED:
+                continue
+            col = col_by_field.get(x)
+            if col is None:
+                continue        # no statement ties the field to a column: judged by B2
+            # only a field whose column is absent from the table in the versions of this range
+            absent = True
+            for vi in range(lo, hi + 1):
+                kind_, obj, cat = rowrules.lookup_table(cats[order[vi]], table)
+                have = rowrules.columns_of(kind_, obj, cat) if kind_ else None
+                if have is None or col.lower() in have:
+                    absent = False
+            if absent:
+                unstored.append(x)
+        inst0 = '%s::%s [%s]' % (cls, sm.func.name, rng)
+        if not unstored:
+            chk.ok('B12', inst0 + ' stores every field of the row', sm.loc)
+            continue
+        # a throw before the statement whose condition tests the field of the row parameter
+        order_nodes = list(walk(sm.func.body))
+        pos = {id(n): i for i, n in enumerate(order_nodes)}
+        at = pos.get(id(sm.site.node), 10 ** 9)
+        for fld in unstored:
+            ok = False
+            for n in order_nodes:
+                if n.get('kind') != 'IfStmt' or pos[id(n)] > at:
+                    continue
+                c = children(n)
+                if not any(x.get('kind') == 'CXXThrowExpr' for x in walk(c[1])):
+                    continue
+                if any(x.get('kind') == 'MemberExpr' and x.get('name') == fld for x in walk(c[0])):
+                    ok = True
+            inst = '%s leaves out %s' % (inst0, fld)
+            if ok:
+                chk.ok('B12', inst + ' and throws when it is engaged', sm.loc)
+            else:
+                chk.violation('B12', 'v2::%s::%s|%s dropped on %s' % (cls, sm.func.name, fld, rng), sm.loc,
+                              '%s: the column does not exist in these versions and nothing rejects a row that carries '
+                              'the field - the call reports success and the value reads back absent, while the '
+                              'per-column accessors of the same column throw unsupported_operation there' % inst)
+
+
+def _single_row_keys(prog, cg, eff, chk, B11, order, cats, lo2, hi2):
+    from .. import valueflow as vf
+    for cls, (table, record) in TABLES.items():
+        for f in table_functions(prog, cls):
+            if f.cls is None or f.body is None:
+                continue
+            single = ('optional<' in (f.ret or '') and record.split('::')[-1] in (f.ret or '')) or f.name == 'remove'
+            if not single:
+                continue
+            ip = vf.Interp(prog, cg, eff)
+            ip.run(f)
+            stmts = []
+            if f.name == 'remove':
+                seen = set()
+                for w in ip.writes:
+                    if w.kind == 'delete' and (w.table or '').lower() == table.lower() and w.loc not in seen:
+                        seen.add(w.loc)
+                        stmts.append(('DELETE', w.where or {}, w.loc))
+            else:
+                for r in ip.reads:
+                    if (r.table or '').lower() == table.lower() and r.func.key == f.key:
+                        stmts.append(('SELECT', r.where or {}, r.loc))
+            for kind, where, loc in stmts:
+                wcols = {c.lower() for c, v in where.items() if any(x[0] == 'in' for x in vf.leaves(v))}
+                if not wcols:
+                    continue
+                problems = []
+                for vi in range(lo2, hi2 + 1):
+                    kind_, obj, cat = rowrules.lookup_table(cats[order[vi]], table)
+                    if kind_ != 'table':
+                        continue
+                    keys = [set(c.lower() for c in u) for u in (obj.uniques or [])]
+                    pk = [c.lower() for c in cat.pk_columns(obj)]
+                    if pk:
+                        keys.append(set(pk))
+                    if keys and not any(k <= wcols for k in keys):
+                        problems.append((order[vi], [sorted(k) for k in keys]))
+                inst = '%s::%s: %s on %s keyed by (%s)' % (cls, f.name, kind, table, ', '.join(sorted(wcols)))
+                if problems:
+                    chk.violation(B11, 'v2::%s::%s|%s keyed by %s' % (cls, f.name, kind, ','.join(sorted(wcols))), loc,
+                                  '%s covers no complete key of the table (keys: %s): rows that differ only in the '
+                                  'remaining key column(s) are both accepted by add, get() then returns one of them and '
+                                  'remove() deletes them all' % (inst, problems[0][1]))
+                else:
+                    chk.ok(B11, inst + ' covers a key', loc)
 
 
 def _lookup_keys(prog, cg, eff, chk, B7, order, cats, lo2, hi2):
